@@ -446,8 +446,20 @@ impl ToMysqlValue for NaiveDate {
     }
 }
 
+/// MySQL has no second 60: chrono's representation of a leap second (second 59 with a nanosecond
+/// part of 10^9 or more) would otherwise be sent with an out-of-range microsecond part.
+fn leap_second(dt: &NaiveDateTime) -> io::Error {
+    io::Error::new(
+        io::ErrorKind::InvalidInput,
+        format!("tried to send the leap second {:?}, which MySQL cannot represent", dt),
+    )
+}
+
 impl ToMysqlValue for NaiveDateTime {
     fn to_mysql_text<W: Write>(&self, w: &mut W) -> io::Result<()> {
+        if self.nanosecond() >= 1_000_000_000 {
+            return Err(leap_second(self));
+        }
         let us = self.nanosecond() / 1_000;
 
         if us != 0 {
@@ -484,6 +496,9 @@ impl ToMysqlValue for NaiveDateTime {
     fn to_mysql_bin<W: Write>(&self, w: &mut W, c: &Column) -> io::Result<()> {
         match c.coltype {
             ColumnType::MYSQL_TYPE_DATETIME | ColumnType::MYSQL_TYPE_TIMESTAMP => {
+                if self.nanosecond() >= 1_000_000_000 {
+                    return Err(leap_second(self));
+                }
                 let us = self.nanosecond() / 1_000;
                 let year = u16::try_from(self.year()).map_err(|_| bad(self, c))?;
 
